@@ -1,11 +1,13 @@
 (* Properties_C02.v — C02: sam toPairAlign reconstructs each pairwise alignment losslessly.
-   PARTIAL: proved are the paired CIGAR walk (all operators, with and without insertion columns), the
-   one-record rows, and — for every query described by one SAM record — the whole block_to_seq_pair pipeline
-   (re-gapping, flattening, right-extension): the reference row degaps to the reference and both rows have
-   length |ref| + total inserted bases.  The multi-record re-gapping loop and the window cut are an executable
-   Coq model compared byte for byte with sam.ToPairAlign, and the implementation's files are compared with
-   pairs written from the statement. *)
-From GF Require Import Base Alphabet SymbolsDef FastaModel Cigar SamModel TopaModel TopaProofs.
+   Proved: the paired CIGAR walk (all operators, with and without insertion columns), the one-record rows, and - for
+   queries described by ANY number of SAM records - the whole block_to_seq_pair pipeline (per-record rows, re-gapping
+   loop over the sorted insertions, '*'-padding, column-wise flattening, right-extension): the reference row IS the
+   canonical gapped reference (after its k-th base exactly the total length of the block's insertions at k), hence
+   degaps to the reference, and the query row has the same length.  PARTIAL: the CONTENT of the multi-record query row
+   (which base/'-'/'N' in which column) and the equality with the toMultiAlign --pad row are decided by the executable
+   Coq model compared byte for byte with sam.ToPairAlign and by pairs written from the statement; the window cut is
+   C15_topa_window_cut. *)
+From GF Require Import Base Alphabet SymbolsDef FastaModel Cigar SamModel TopaModel TopaProofs PairProofs.
 Open Scope N_scope.
 
 Theorem C02_walk2_rows : forall ins ops q r sq ref x y, ~ In 45 ref ->
@@ -25,6 +27,33 @@ Theorem C02_pair1_degap_ref : forall ref rc R Q, ~ In 45 ref ->
   degap R = ref /\ length R = (length ref + ins_total (s_cigar rc))%nat /\ length Q = length R.
 Proof. exact pair1_degap_ref. Qed.
 Print Assumptions C02_pair1_degap_ref.
+
+(* multi-record (supplementary) queries: the reference row is the canonical gapped reference ... *)
+Theorem C02_pairk_ref_row : forall ref block R Q, block <> [] -> ~ In 45 ref -> Forall (fun c => 42 <= c) ref ->
+  block_to_seq_pair ref block = Some (R, Q) ->
+  R = grow ref (Iof (block_insertions block)) (length ref) /\ length Q = length R.
+Proof. exact pairk_ref_row. Qed.
+Print Assumptions C02_pairk_ref_row.
+
+(* ... which in the statement's words means: removing '-' gives exactly the reference, the gap columns are exactly the
+   block's inserted bases, and the rows are equally long; any number of records, any CIGARs, any overlaps *)
+Theorem C02_pairk_degap_ref : forall ref block R Q, block <> [] -> ~ In 45 ref -> Forall (fun c => 42 <= c) ref ->
+  block_to_seq_pair ref block = Some (R, Q) ->
+  degap R = ref /\ length R = (length ref + tot (block_insertions block))%nat /\ length Q = length R.
+Proof. exact pairk_degap_ref. Qed.
+Print Assumptions C02_pairk_degap_ref.
+
+(* the canonical row read back: its bases are the first E reference bases *)
+Theorem C02_canonical_row_degaps : forall ref I E, ~ In 45 ref -> (E <= length ref)%nat -> degap (grow ref I E) = firstn E ref.
+Proof. exact degap_grow. Qed.
+Print Assumptions C02_canonical_row_degaps.
+
+Example C02_example_two_records :
+  block_to_seq_pair (bs "ACGTACGTACGTACGT")
+    [ {| s_name := bs "q"; s_flag := 0; s_pos := 0%nat; s_cigar := [(OM,4);(OI,2);(OM,3)]%nat; s_seq := bs "ACGTTTACG" |};
+      {| s_name := bs "q"; s_flag := 2048; s_pos := 9%nat; s_cigar := [(OM,2);(OI,1);(OM,4)]%nat; s_seq := bs "CGAACGT" |} ]
+  = Some (bs "ACGT--ACGTACG-TACGT", bs "ACGTTTACGNNCGAACGTN").
+Proof. vm_compute. reflexivity. Qed.
 
 Example C02_example :
   block_to_seq_pair (bs "ACGTACGTAC") [ {| s_name := bs "q"; s_flag := 0; s_pos := 1%nat;
